@@ -1,6 +1,6 @@
 (* C16 - Execution queue: items consumed once, one consumer at a time, none stranded.
    Only statements; proofs are `exact <lemma of EQ/EQProofs.v>`.  Reach cap async faults progs s = "s is reachable
-   from the initial state of client programs `progs` (any number of threads, ops execute / signal_push_event / join)
+   from the initial state of client programs `progs` (any number of threads, ops execute(T&&) / execute(const T&) / signal_push_event / join)
    with queue capacity `cap`, asynchronous (true) or inline (false) executor and executor fault list `faults`
    (true = that submit attempt is refused) under SOME schedule" - every theorem is therefore quantified over all
    schedules, programs, producer counts, capacities >= 1, both executors and all fault lists.
@@ -37,11 +37,21 @@ Require Import Verif.Gen.Gen_execution_queue Verif.Gen.Gen_execution_queue_sites
 Import ListNotations.
 Local Open Scope Z_scope.
 
-(* every item is delivered to the consume function at most once, and only items passed to execute() are delivered
+(* both overloads of execute() - OExec = execute(T&&), OExecL = execute(const T&) - push into the inner queue with
+   CONCURRENT = true (regenerated template arguments), i.e. take their ring ticket with one atomic fetch_add; with
+   `false` the model splits the ticket into load and store steps (pc PTicket) and every invariant proof re-opens *)
+Theorem c16_tickets_atomic : execute_move_push_concurrent = true /\ execute_copy_push_concurrent = true /\
+  (forall cap asy flt progs s t th i, (1 <= cap)%nat -> Reach cap asy flt progs s ->
+     nth_error (threads s) t = Some th -> tpc th <> PTicket i).
+Proof. exact eq_tickets_atomic. Qed.
+Print Assumptions c16_tickets_atomic.
+
+(* every item (exec_at th i = true: op i of thread th is an execute() call of either overload) is delivered to the
+   consume function at most once, and only items passed to execute() are delivered
    (delivered s = the tickets whose consumption finished, in delivery order, as (producer thread, op index)) *)
 Theorem c16_consumed_at_most_once : forall cap asy flt progs s, (1 <= cap)%nat -> Reach cap asy flt progs s ->
   NoDup (delivered s) /\
-  (forall t i, In (t, i) (delivered s) -> exists th, nth_error (threads s) t = Some th /\ nth_error (prog th) i = Some OExec).
+  (forall t i, In (t, i) (delivered s) -> exists th, nth_error (threads s) t = Some th /\ exec_at th i = true).
 Proof. exact eq_consumed_at_most_once. Qed.
 Print Assumptions c16_consumed_at_most_once.
 
@@ -51,7 +61,7 @@ Print Assumptions c16_consumed_at_most_once.
 Theorem c16_none_stranded_at_end : forall cap asy flt progs s, (1 <= cap)%nat -> Reach cap asy flt progs s ->
   all_done s = true -> stale s = false ->
   events s = 0 /\ delivered s = map key (cells s) /\
-  (forall t th i, nth_error (threads s) t = Some th -> nth_error (prog th) i = Some OExec -> In (t, i) (delivered s)).
+  (forall t th i, nth_error (threads s) t = Some th -> exec_at th i = true -> In (t, i) (delivered s)).
 Proof. exact eq_none_stranded_at_end. Qed.
 Print Assumptions c16_none_stranded_at_end.
 
